@@ -516,6 +516,9 @@ _base_check_c16 = check
 def check(ctx):            # noqa: F811  (extends the rules above)
     _base_check_c16(ctx)
     printers(ctx, ctx.prog)
+    # "every field reads back as written" includes Fee.address: stored as Base58-decoded bytes, read back by Base58-encoding them — C06's rule instances
+    from .. import rules as R
+    R.share(ctx, "C06", {"C06-D3": "C16-D9"})
 
 
 def printers(ctx, prog):
